@@ -69,11 +69,35 @@ def run(tier):
         bs = list(range(0, nbytes))
         if len(bs) > cap_bytes:
             bs = sorted(set([0, 1, nbytes - 1] + [(i * nbytes) // cap_bytes for i in range(cap_bytes)]))
-        for m, pts in (("call", ks), ("budget", bs)):
+        for m, pts in (("call", ks), ("budget", bs), ("chunk", [1, 2, 3, 7])):
             for k in pts:
-                to = {"fail_call": k} if m == "call" else {"budget": k}
+                to = {"fail_call": k} if m == "call" else {"budget": k} if m == "budget" else {"chunk": k}
                 fjobs.append({"cfg": cfg, "ctx": ctx, "steps": [{"op": "add", "tpls": tpls}, dict(op, to=to)]})
                 fmeta.append((src, op["op"], m, k, full, sizes))
+    # purity across renders in one process/thread: a render that FAILS half way (inside a component body, a capture, an
+    # include, a block) must leave nothing behind for the next render, of the same or of another instance
+    FAILING = [("component", [["f.html", "{% component boom(x) %}<li>{{ x }} costs {{ nope }}</li>{% endcomponent boom %}{{<boom x='ink' />}}"]], "f.html"),
+               ("capture", [["f.html", "{% set v %}abc {{ nope }}{% endset %}{{ v }}"]], "f.html"),
+               ("filter", [["f.html", "{% filter upper %}abc {{ 1 / 0 }}{% endfilter %}"]], "f.html"),
+               ("include", [["g.html", "inc {{ nope }}"], ["f.html", "pre {% include 'g.html' %}"]], "f.html"),
+               ("block", [["p.html", "P{% block b %}pb {{ nope }}{% endblock %}"], ["f.html", "{% extends 'p.html' %}"]], "f.html")]
+    pjobs = []
+    for (src, cfg, ctx, tpls, op) in items:
+        for fname, ftpls, fentry in FAILING:
+            pjobs.append({"cfg": cfg, "ctx": ctx, "steps": [{"op": "add", "tpls": ftpls}, {"op": "render", "name": fentry}, {"op": "render_block", "name": fentry, "block": "b"}]})
+            pjobs.append({"cfg": cfg, "ctx": ctx, "steps": [{"op": "add", "tpls": tpls}, dict(op)]})
+    pres = vp.run_jobs(pjobs, tag="c18-pure", timeout=3000)
+    pi = 0
+    for (src, cfg, ctx, tpls, op), rr0 in zip(items, base):
+        for fname, ftpls, fentry in FAILING:
+            after = pres[pi + 1][1]
+            pi += 2
+            C.count()
+            want = rr0[1]
+            if (after.get("ok"), after.get("out")) != (want.get("ok"), want.get("out")):
+                C.violation({"kind": "purity-after-failure", "tpl": src, "after": fname},
+                            "%s renders %r after a render that failed inside a %s (in the same process), but %r in a fresh process" % (src, after.get("out"), fname, want.get("out")),
+                            {"tpl": src, "failing": ftpls})
     fres = vp.run_jobs(fjobs, tag="c18-fault", timeout=3000)
     work = vp.workdir("c18")
     op_path = os.path.join(work, "obs.ndjson")
